@@ -26,12 +26,12 @@ tvars == <<st, l>>
 
 NoCur == [ty |-> 0, val |-> NullV, pk |-> <<>>, canonical |-> FALSE, etype |-> "rec", allc |-> TRUE, isref |-> FALSE,
           cmp |-> FALSE, perm |-> FALSE, extra |-> FALSE, deep |-> FALSE, src |-> "", stopped |-> FALSE]
-NoDone == [has |-> FALSE, ok |-> FALSE, val |-> UnitRV, reps |-> <<>>]
+NoDone == [has |-> FALSE, ok |-> FALSE, val |-> UnitRV, reps |-> <<>>, final |-> <<>>]
 
 InitSt == [stack |-> <<>>, cur |-> NoCur, made |-> {}, reps |-> <<>>, phase |-> "none", runbad |-> TRUE,
            refev |-> <<>>, pos |-> 0, diverged |-> FALSE, refok |-> FALSE,
            ref1 |-> [has |-> FALSE, mj |-> "", mq |-> ""], refdone |-> NoDone, rootexit |-> [ok |-> FALSE, val |-> UnitRV, ids |-> <<>>],
-           fnf |-> {}, ncall |-> 0, idp |-> <<>>,
+           fnf |-> {}, ncall |-> 0, idp |-> <<>>, repids |-> <<>>,
            vcount |-> [p \in Props |-> 0], viol |-> <<>>, nruns |-> 0, nev |-> 0, nrep |-> 0, nbrk |-> 0, ncmp |-> 0, nperm |-> 0, nmsg |-> 0,
            ncheck |-> [p \in Props |-> 0]]
 
@@ -56,7 +56,7 @@ StartRun(s, e) ==
                 cmp |-> (~isref /\ e.etype = "rec" /\ ~e.inp.perm /\ ~e.inp.extra /\ ~e.deep), perm |-> (~isref /\ e.inp.perm /\ e.etype = "rec"),
                 extra |-> (~isref /\ e.inp.extra /\ e.etype = "rec"),
                 deep |-> e.deep, src |-> e.src, stopped |-> FALSE]
-    IN [s EXCEPT !.stack = <<>>, !.cur = cur, !.made = {}, !.reps = <<>>, !.fnf = {}, !.idp = <<>>, !.phase = "idle", !.runbad = FALSE,
+    IN [s EXCEPT !.stack = <<>>, !.cur = cur, !.made = {}, !.reps = <<>>, !.repids = <<>>, !.fnf = {}, !.idp = <<>>, !.phase = "idle", !.runbad = FALSE,
                  !.refev = IF isref THEN <<>> ELSE @, !.pos = 0, !.diverged = FALSE,
                  !.refok = IF isref THEN TRUE ELSE @,
                  !.ref1 = IF isref THEN [has |-> FALSE, mj |-> "", mq |-> ""] ELSE @,
@@ -150,7 +150,7 @@ OnErr(s, e) ==
         samek == {c \in cands : c.det.k = e.det.k /\ SameSubject(c.det, e.det)}
         exact == {c \in samek : c.loc = e.loc /\ DetAgrees(c.det, e.det)}
         pick(S) == CHOOSE c \in S : \A d \in S : ObLeq(c.ob, d.ob)
-        s1 == [s EXCEPT !.made = @ \cup {e.id}, !.reps = Append(@, ObsDesc(e)), !.nrep = @ + 1,
+        s1 == [s EXCEPT !.made = @ \cup {e.id}, !.reps = Append(@, ObsDesc(e)), !.repids = Append(@, e.id), !.nrep = @ + 1,
                         !.cur = [@ EXCEPT !.stopped = (e.ans = "b")],
                         !.idp = Append(@, [id |-> e.id, ps |-> CASE e.det.k = "missing" -> {"C08"} [] e.det.k = "unknownkey" -> {"C09"}
                                                                   [] e.det.k = "unknownvalue" -> {"C10"}
@@ -200,7 +200,7 @@ OnMrg(s, e) ==
             \* the error of a user function on its way into the error type
             LET c == CHOOSE x \in Candidates(s.stack, s.cur) : x.e = "mrg" /\ x.ans = e.ans
                 isrep == F.ph # "fnm2"                                   \* this merge turns the function's error into a report
-                s2 == IF isrep THEN [s1 EXCEPT !.made = @ \cup {F.fnp.id}, !.reps = Append(@, FnDesc(F.fnp.f, e.loc)), !.nrep = @ + 1,
+                s2 == IF isrep THEN [s1 EXCEPT !.made = @ \cup {F.fnp.id}, !.reps = Append(@, FnDesc(F.fnp.f, e.loc)), !.repids = Append(@, F.fnp.id), !.nrep = @ + 1,
                                                !.ref1 = IF s.cur.isref /\ ~@.has THEN [has |-> TRUE, mj |-> e.mj, mq |-> e.mq] ELSE @,
                                                !.idp = Append(@, [id |-> F.fnp.id, ps |-> CASE F.fnp.k = "missing" -> {"C08"} [] F.fnp.k = "deny" -> {"C09"} [] OTHER -> {"C11"}])]
                       ELSE s1
@@ -336,14 +336,18 @@ OnDone(s, e) ==
 \* What is still recorded once a run has been charged with a deviation: the reports it makes (for the comparisons
 \* between runs of the same input, which do not depend on the specification) - nothing else is judged.
 Degraded(s, e) ==
-    CASE e.e = "err" -> [s EXCEPT !.reps = Append(@, ObsDesc(e)),
+    CASE e.e = "err" -> [s EXCEPT !.reps = Append(@, ObsDesc(e)), !.repids = Append(@, e.id),
                                   !.ref1 = IF s.cur.isref /\ ~@.has THEN [has |-> TRUE, mj |-> e.mj, mq |-> e.mq] ELSE @]
       [] e.e = "mrg" /\ Len(e.src) > 3 /\ SubSeq(e.src, 1, 3) = "fn:" ->
-            [s EXCEPT !.reps = Append(@, FnDesc(SubSeq(e.src, 4, Len(e.src)), e.loc)),
+            [s EXCEPT !.reps = Append(@, FnDesc(SubSeq(e.src, 4, Len(e.src)), e.loc)), !.repids = Append(@, IF Len(e.other) > 0 THEN e.other[1] ELSE 0),
                       !.ref1 = IF s.cur.isref /\ ~@.has THEN [has |-> TRUE, mj |-> e.mj, mq |-> e.mq] ELSE @]
       [] OTHER -> s
 
 \* comparisons between the runs of one input (implementation against itself): member order (C15), built-in error types (C03d / C14)
+\* the reports the returned error is made of (as descriptors)
+FinalDescs(s, ids) == LET js == {j \in 1..Len(s.reps) : j <= Len(s.repids) /\ s.repids[j] \in SeqToSet(ids)} IN
+                      LET RECURSIVE f(_) f(T) == IF T = {} THEN <<>> ELSE LET x == CHOOSE y \in T : \A z \in T : y <= z IN <<s.reps[x]>> \o f(T \ {x}) IN f(js)
+
 GroupDone(s, e) ==
     IF s.cur.etype # "rec" THEN
         IF ~s.refdone.has THEN s
@@ -353,14 +357,17 @@ GroupDone(s, e) ==
         ELSE IF ~s.ref1.has THEN s
         ELSE IF e.msg = (IF s.cur.etype = "json" THEN s.ref1.mj ELSE s.ref1.mq) THEN Seen([s EXCEPT !.nmsg = @ + 1], {"C03", "C14"})
         ELSE Flag(s, {"C03", "C14"}, "the always-stop error type does not return the first report of the keep-going run")
-    ELSE IF s.cur.isref THEN [s EXCEPT !.refdone = [has |-> TRUE, ok |-> e.ok, val |-> e.val, reps |-> s.reps]]
+    ELSE IF s.cur.isref THEN [s EXCEPT !.refdone = [has |-> TRUE, ok |-> e.ok, val |-> e.val, reps |-> s.reps, final |-> FinalDescs(s, e.ids)]]
     ELSE IF s.cur.perm /\ s.refdone.has THEN
-         (IF e.ok = s.refdone.ok /\ (e.ok => e.val = s.refdone.val) /\ (s.cur.allc => SameBag(NoAct(s.reps), NoAct(s.refdone.reps)))
+         (IF e.ok = s.refdone.ok /\ (e.ok => e.val = s.refdone.val)
+             /\ (s.cur.allc => SameBag(NoAct(s.reps), NoAct(s.refdone.reps)))                          \* the reports the error type receives
+             /\ (s.cur.allc => SameBag(NoAct(FinalDescs(s, e.ids)), NoAct(s.refdone.final)))           \* ... and the ones the outcome is made of
           THEN Seen([s EXCEPT !.nperm = @ + 1], {"C15"})
           ELSE Flag(s, {"C15"}, "permuting object members changes the value or the set of reports"))
     ELSE IF s.cur.extra /\ s.refdone.has THEN
          \* C09: without deny_unknown_fields, unknown keys have no influence whatsoever
          (IF e.ok = s.refdone.ok /\ (e.ok => e.val = s.refdone.val) /\ SameBag(NoAct(s.reps), NoAct(s.refdone.reps))
+             /\ SameBag(NoAct(FinalDescs(s, e.ids)), NoAct(s.refdone.final))
           THEN Seen([s EXCEPT !.nperm = @ + 1], {"C09"})
           ELSE Flag(s, {"C09"}, "adding unknown keys changes the value or the reports although deny_unknown_fields is absent"))
     ELSE s
